@@ -298,6 +298,8 @@ density_sketch<T, K, A> density_sketch<T, K, A>::deserialize(std::istream& is, c
   while (num_to_read > 0) {
     const auto level_size = read<uint32_t>(is);
     if (!is.good()) throw std::runtime_error("error reading from std::istream");
+    if (level_size > num_to_read)
+      throw std::runtime_error("Error deserializing sketch: level size exceeds the number of retained items");
     Level lvl(allocator);
     lvl.reserve(level_size);
     for (uint32_t i = 0; i < level_size; ++i) {
@@ -366,6 +368,8 @@ density_sketch<T, K, A> density_sketch<T, K, A>::deserialize(const void* bytes, 
     uint32_t level_size;
     ensure_minimum_memory(end_ptr - ptr, sizeof(level_size));
     ptr += copy_from_mem(ptr, level_size);
+    if (level_size > num_to_read)
+      throw std::runtime_error("Error deserializing sketch: level size exceeds the number of retained items");
     ensure_minimum_memory(end_ptr - ptr, level_size * pt_size);
     Level lvl(allocator);
     lvl.reserve(level_size);
